@@ -23,6 +23,7 @@ func propC10(c *Ctx) {
 	c.ruleC10MacroRemoved()
 	c.ruleC10CopyReset()
 	c.ruleC10CopyIdentity()
+	c.rulePhaseConstructor()                  // the expansion pass looks at the directives, never at the text of the root file
 	c.ruleMemoCoverage("C10-MEMO-KEY-COVERS") // the copies of a pasted directive share its coordinates: a memo keyed by them confuses the copies
 	c.ruleC10RulesWithBody()
 	c.ruleNextDirectiveRecognised("C10-NEXT-DIRECTIVE") // a PASTE after an implicit Description must be seen
@@ -207,7 +208,7 @@ func (c *Ctx) ruleC10RulesWithBody() {
 // from the body written twice (F26: collectPathVariables refused GET+Path pasted under two URLs).
 func (c *Ctx) ruleC10CopyIdentity() {
 	r := c.R
-	r.Rule("C10-COPY-IDENTITY", "no function outside package directive decides by a predicate that compares two directives by their coordinates (copies made by PASTE have equal coordinates); directives are told apart by identity", 1)
+	r.Rule("C10-COPY-IDENTITY", "no function of the library (package directive included, the predicates themselves apart) decides by a predicate that compares two directives by their coordinates (copies made by PASTE have equal coordinates); directives are told apart by identity", 1)
 	preds := map[*types.Func]bool{}
 	for _, f := range c.libFns() {
 		if f.Pkg.Types.Name() != "directive" {
@@ -247,8 +248,8 @@ func (c *Ctx) ruleC10CopyIdentity() {
 	sort.Strings(names)
 	r.Ok("C10-COPY-IDENTITY", "predicates", fmt.Sprintf("coordinate-equality predicates of package directive: %v", names), "")
 	for _, f := range c.libFns() {
-		if f.Pkg.Types.Name() == "directive" {
-			continue
+		if preds[f.Obj] {
+			continue // the predicates themselves (one may be written with another)
 		}
 		for p := range preds {
 			for _, call := range callsIn(f.Pkg, f.Decl.Body, p) {
